@@ -71,8 +71,18 @@ def probe(s, case):
                 raise Violation(f"non-recursive watch reported something below the root's direct children: {deep} (probe {rel!r})", "nonrecursive-deep-event")
 
 
+def scope_of_window(s, evs, burst):
+    """Under a non-recursive watch nothing below the root's direct children is ever reported - not when probed (see
+    probe) and not while the history runs (e.g. the contents of a tree that is moved in)."""
+    if bool(s.cfg.get("recursive", True)):
+        return
+    deep = [e for e in evs if all((s.norm(p) or "").count("/") >= 1 for p in (e.src_path, e.dest_path) if p)]
+    if deep:
+        raise Violation(f"non-recursive watch reported something below the root's direct children: {deep[:4]} (burst {burst})", "nonrecursive-deep-event")
+
+
 def run_case(case):
-    return c01.run_case(case, probe=probe)
+    return c01.run_case(case, probe=probe, on_window=scope_of_window)
 
 
 def final_info(case):
